@@ -17,7 +17,7 @@
 -/
 import SyModel.Generated.Code.TempFile
 import SyModel.Generated.Consts
-import SyModel.Lemmas.GenTransfer
+import SyModel.Lemmas.PathText
 import SyModel.Lemmas.GenLocalCopyWorld
 namespace SyModel.Props.GenTempFile
 open SyModel.Generated SyModel.Generated.TempFile
@@ -46,12 +46,12 @@ theorem working_file_path_eq (p : Rs.Path) (h : ProperName p) : working_file_pat
   simp only [Id.run, Rs.path_file_name, Rs.with_file_name, Rs.unwrap_or_default_str, Rs.opt_map]
   obtain ⟨h1, h2⟩ := h
   rcases last_slash p with hn | ⟨a, c, rfl, hc⟩
-  · have hs := SyModel.Lemmas.GenTransfer.splitLastAt_none p hn
+  · have hs := SyModel.Lemmas.PathText.splitLastAt_none p hn
     have hl : Rs.lastComponent p = p := by simp [Rs.lastComponent, hs]
     rw [hl] at h1 h2
     simp [hl, hs, h1, h2, sfx, List.isEmpty_iff]
     rfl
-  · have hs := SyModel.Lemmas.GenTransfer.splitLastAt_last a c hc
+  · have hs := SyModel.Lemmas.PathText.splitLastAt_last a c hc
     have hl : Rs.lastComponent (a ++ '/' :: c) = c := by simp [Rs.lastComponent, hs]
     rw [hl] at h1 h2
     simp [hl, hs, h1, h2, sfx, List.isEmpty_iff]
@@ -73,7 +73,7 @@ theorem working_file_path_ne_self (p : Rs.Path) (hp : ProperName p) : working_fi
 /-- the working file lies in the destination's own directory (same text up to the last `/`): a rename within one directory -/
 theorem working_file_path_same_dir (a c : Rs.Str) (hc : '/' ∉ c) (h1 : c ≠ []) (h2 : c ≠ ['.', '.']) :
     working_file_path (a ++ '/' :: c) = a ++ '/' :: (c ++ sfx) := by
-  have hs := SyModel.Lemmas.GenTransfer.splitLastAt_last a c hc
+  have hs := SyModel.Lemmas.PathText.splitLastAt_last a c hc
   have hl : Rs.lastComponent (a ++ '/' :: c) = c := by simp [Rs.lastComponent, hs]
   rw [working_file_path_eq _ ⟨by rw [hl]; exact h1, by rw [hl]; exact h2⟩]
   simp
